@@ -109,7 +109,7 @@ class Render:
             if t[1] not in self.shared:
                 self.shared.add(t[1])
                 txt = self.pl(t[2])
-                self.prelude.append("%s = %s" % (t[1], txt))
+                self.prelude.append("%s = (%s)" % (t[1], txt))
             return t[1]
         raise ValueError(t)
 
@@ -622,8 +622,23 @@ def gen_bad_list(rng, nv):
     return gen_compound(rng, 1, nv)
 
 
+def gen_cell_backref(rng, nv):
+    """a list cell whose car / cdr are variable cells that are referenced again from outside the
+    list (the copier's back-edge forwarding when such a variable is bound later)."""
+    n = rng.choice([1, 1, 2, 3])
+    el = [gen_var(rng, nv) if rng.random() < 0.7 else gen_term(rng, 1, nv) for _ in range(n)]
+    tl = gen_var(rng, nv)
+    lst = ('lst', el, tl)
+    refs = [rng.choice([tl, tl] + el) for _ in range(rng.choice([1, 2, 3]))]
+    parts = [lst, ('s', 'h', refs)]
+    rng.shuffle(parts)
+    return ('s', 'f', parts)
+
+
 def gen_copy(rng):
     nv = rng.choice([1, 2, 3, 4])
+    if rng.random() < 0.12:
+        return [gen_cell_backref(rng, max(nv, 2)), rng.choice([('v', 'W0'), ('v', 'W0'), gen_term(rng, 2, nv)])]
     t = gen_term(rng, rng.choice([1, 2, 3, 4]), nv, share={} if rng.random() < 0.6 else None)
     r = rng.random()
     if r < 0.5:
@@ -691,7 +706,7 @@ def gen_subsumes(rng):
 
 GEN = {"functor": gen_functor, "arg": gen_arg, "univ": gen_univ, "copy": gen_copy, "tvars": gen_tvars,
        "ground": gen_ground, "subsumes": gen_subsumes}
-GOAL = {"functor": "functor(%s,%s,%s)", "arg": "arg(%s,%s,%s)", "univ": "%s =.. %s", "copy": "copy_term(%s,%s)",
+GOAL = {"functor": "functor(%s,%s,%s)", "arg": "arg(%s,%s,%s)", "univ": "(%s) =.. (%s)", "copy": "copy_term(%s,%s)",
         "tvars": "term_variables(%s,%s)", "ground": "ground(%s)", "subsumes": "subsumes_term(%s,%s)"}
 
 
@@ -737,6 +752,12 @@ def directed():
         ("copy", [s('f', ('lst', [X], Y), X, Y), W], [("V0", s('g', Z)), ("V1", ('lst', [b], None))]),
         ("copy", [s('f', ('str', "ab", X), X), W], [("V0", ('str', "cd", None))]),
         ("copy", [s('f', s('g', X, Y), Y, X), W], [("V0", ('lst', [b], Z)), ("V1", s('h', Z, Z))]),
+        ("copy", [s('f', ('lst', [X], Y), s('h', Y, X)), W], [("V0", s('f', ('i', 1))), ("V1", s('g', ('i', 2)))]),
+        ("copy", [s('f', ('lst', [X], Y), s('h', Y)), W], [("V1", s('g', ('i', 2)))]),
+        ("copy", [s('f', ('lst', [X], Y), s('h', X)), W], [("V0", s('g', ('i', 2)))]),
+        ("copy", [s('f', s('h', Y), ('lst', [X], Y)), W], [("V1", s('g', Z))]),
+        ("copy", [s('f', ('lst', [X, Z], Y), s('h', Y, Z, X)), W], [("V1", ('lst', [b], None)), ("V2", a)]),
+        ("tvars", [s('f', ('lst', [X], Y), s('h', Y, X)), W], [("V1", s('g', Z))]),
         ("tvars", [s('f', ('lst', [a], X), X, Y), W], [("V0", ('lst', [Z, Y], None))]),
         ("arg", [('i', 2), ('lst', [a], X), W], [("V0", ('lst', [b], None))]),
         ("arg", [('i', 1), ('str', "abc", None), X], [("V0", ('lst', [b], None))]),
@@ -827,7 +848,7 @@ def gen_late(rng, args):
         tree_vars(expand(a), vs)
     vs = [v for v in vs if v.startswith("V")]
     rng.shuffle(vs)
-    return [(v, rng.choice(LATE_VALUES)) for v in vs[:rng.choice([1, 1, 2])]]
+    return [(v, rng.choice(LATE_VALUES)) for v in vs[:rng.choice([1, 1, 2, 3])]]
 
 
 def make_case(cid, op, args, late=()):
@@ -848,7 +869,8 @@ def make_case(cid, op, args, late=()):
     if late:
         # build the arguments first, then bind
         names = ["A%d" % (j + 1) for j in range(len(texts))]
-        pre = ["%s = %s" % (n, t) for n, t in zip(names, texts)] + ["%s = %s" % (v, rd.pl(t)) for v, t in late]
+        # parenthesised: an operator atom such as '-' is not a valid operand of =/2 when bare
+        pre = ["%s = (%s)" % (n, t) for n, t in zip(names, texts)] + ["%s = (%s)" % (v, rd.pl(t)) for v, t in late]
         texts = names
     goal = GOAL[op] % tuple(texts)
     rterm = "r(S%s)" % "".join("," + v for v in vs)
@@ -962,14 +984,14 @@ def run(ctx):
         cases = rep
     else:
         cases = diff.load_corpus("C23")
-        n = 1800 if tier == "quick" else 20000
+        n = 1800 if tier == "quick" else 16000
         specs = list(directed())
         weights = {"functor": 3, "arg": 3, "univ": 4, "copy": 4, "tvars": 3, "ground": 1, "subsumes": 3}
         bag = [op for op, w in weights.items() for _ in range(w)]
         for _ in range(n):
             op = rng.choice(bag)
             a = GEN[op](rng)
-            specs.append((op, a, gen_late(rng, a)) if rng.random() < (0.35 if op in ("copy", "tvars", "ground") else 0.15)
+            specs.append((op, a, gen_late(rng, a)) if rng.random() < (0.4 if op in ("copy", "tvars", "ground") else 0.15)
                          else (op, a))
         for i, sp in enumerate(specs):
             cases.append(make_case("c%d" % i, *sp))
